@@ -71,8 +71,12 @@ fn check_typed<A: Archetype>(rep: &mut Report, any: EntityAny, name: &str) {
     }
 }
 
-fn check_typed_direct<A: Archetype>(rep: &mut Report, d: EntityDirectAny, name: &str) {
-    let matches = d.archetype_id() == A::ARCHETYPE_ID;
+fn check_typed_direct<A: Archetype>(rep: &mut Report, d: EntityDirectAny, minted_by: u8, name: &str) {
+    // ground truth is the archetype that minted the handle, not what the handle says about itself
+    let matches = minted_by == A::ARCHETYPE_ID;
+    if d.archetype_id() != minted_by {
+        rep.violate(&["C14"], "convert", format!("{:?} was minted by archetype id {minted_by} but archetype_id() says {}", d, d.archetype_id()));
+    }
     rep.count("typed_direct_conversions");
     match EntityDirect::<A>::try_from(d) {
         Ok(e) => {
@@ -96,6 +100,9 @@ fn check_typed_direct<A: Archetype>(rep: &mut Report, d: EntityDirectAny, name: 
                 rep.violate(&["C14"], "convert", format!("EntityDirect<{name}>::try_from({:?}) failed although the id matches", d));
             }
         }
+    }
+    if !matches && SMALL.load(std::sync::atomic::Ordering::Relaxed) && crate::forge::direct_parts(d).1 % 3 != 0 {
+        return;
     }
     let p = guard(|| EntityDirect::<A>::from_any(d));
     if p.is_err() == matches {
@@ -214,6 +221,18 @@ fn check_eq_hash(rep: &mut Report, rng: &mut Rng) {
             }
         }
     }
+    for a in hs.iter() {
+        for b in hs.iter() {
+            macro_rules! typed_eq_s { ($rep:ident, $a:ident, $b:ident, $A:ident) => {
+                if let (Ok(t1), Ok(t2)) = (Entity::<$A>::try_from(*$a), Entity::<$A>::try_from(*$b)) {
+                    if (t1 == t2) != (*$a == *$b) || (t1 == t2 && h64(&t1) != h64(&t2)) {
+                        $rep.violate(&["C14"], "eq", format!("Entity<{}>: {:?} == {:?} is {}", stringify!($A), $a.raw(), $b.raw(), t1 == t2));
+                    }
+                }
+            }; }
+            for_archs!(typed_eq_s!(rep, a, b));
+        }
+    }
     let distinct: HashSet<(u32, u32)> = hs.iter().map(|h| h.raw()).collect();
     if set.len() != distinct.len() {
         rep.violate(&["C14"], "hash", format!("HashSet holds {} handles for {} distinct values", set.len(), distinct.len()));
@@ -279,6 +298,7 @@ pub fn run_convert(seed: u64, shard: u64, n: usize, small: bool) -> Report {
     // direct handles: minted by real worlds at several (index, version) combinations
     let mut w = WMain::new();
     let mut directs: Vec<EntityDirectAny> = Vec::new();
+    let mut minted: Vec<u8> = Vec::new();
     for round in 0..(if small { 2 } else { 6 }) {
         let mut es = Vec::new();
         for i in 0..(3 + round) {
@@ -287,6 +307,7 @@ pub fn run_convert(seed: u64, shard: u64, n: usize, small: bool) -> Report {
             let t2 = with_reg(|r| r.new_token());
             let e2 = w.create::<ArchTwin>((Za::make(0, 0), make_cell::<Pb>((t2, 0))));
             directs.push(w.to_direct(e2).unwrap().into_any());
+            minted.push(<ArchTwin as Archetype>::ARCHETYPE_ID);
             let da: EntityDirectAny = w.to_direct(e2.into_any()).unwrap();
             if da != w.to_direct(e2).unwrap().into_any() {
                 rep.violate(&["C14"], "convert", "to_direct(EntityAny) and to_direct(Entity<A>) differ".into());
@@ -294,13 +315,27 @@ pub fn run_convert(seed: u64, shard: u64, n: usize, small: bool) -> Report {
         }
         for e in es.iter() {
             directs.push(w.to_direct(*e).unwrap().into());
+            minted.push(<ArchOne as Archetype>::ARCHETYPE_ID);
+        }
+        // a 16-column archetype with id 200 as well
+        if round < 2 {
+            let row: Vec<(u64, u64)> = (0..16).map(|i| (with_reg(|r| r.new_token()), i as u64)).collect();
+            let ew = w.create::<ArchWide>((
+                make_cell::<Pa>(row[0]), make_cell::<Pb>(row[1]), make_cell::<Pc>(row[2]), make_cell::<Pd>(row[3]),
+                make_cell::<Pe>(row[4]), make_cell::<Pf>(row[5]), make_cell::<Pg>(row[6]), make_cell::<Ph>(row[7]),
+                make_cell::<Ha>(row[8]), Zb::make(0, 0), make_cell::<Ls>(row[10]), make_cell::<Bn>(row[11]),
+                Zn, make_cell::<Hb>(row[13]), make_cell::<Wt>(row[14]), make_cell::<Qs>(row[15]),
+            ));
+            directs.push(w.to_direct(ew).unwrap().into_any());
+            minted.push(<ArchWide as Archetype>::ARCHETYPE_ID);
         }
         drop(w.destroy(es[0]));
     }
     let mut dset = HashSet::new();
-    for d in directs.iter() {
+    for (di, d) in directs.iter().enumerate() {
         dset.insert(*d);
-        macro_rules! typed_d { ($rep:ident, $d:ident, $A:ident) => { check_typed_direct::<$A>(&mut $rep, *$d, stringify!($A)); }; }
+        let by = minted[di];
+        macro_rules! typed_d { ($rep:ident, $d:ident, $A:ident) => { check_typed_direct::<$A>(&mut $rep, *$d, by, stringify!($A)); }; }
         for_archs!(typed_d!(rep, d));
         match SelectEntityDirect::try_from(*d) {
             Ok(sel) => {
@@ -321,6 +356,15 @@ pub fn run_convert(seed: u64, shard: u64, n: usize, small: bool) -> Report {
             if (d == d2) != same || (same && h64(d) != h64(d2)) {
                 rep.violate(&["C14"], "eq", format!("direct handles {:?} / {:?}: == is {}", d, d2, d == d2));
             }
+            // the typed handles must compare (and hash) like the dynamic ones
+            macro_rules! typed_eq { ($rep:ident, $d:ident, $d2:ident, $A:ident) => {
+                if let (Ok(t1), Ok(t2)) = (EntityDirect::<$A>::try_from(*$d), EntityDirect::<$A>::try_from(*$d2)) {
+                    if (t1 == t2) != (*$d == *$d2) || (t1 == t2 && h64(&t1) != h64(&t2)) {
+                        $rep.violate(&["C14"], "eq", format!("EntityDirect<{}>: {:?} == {:?} is {} but the dynamic handles compare {}", stringify!($A), $d, $d2, t1 == t2, *$d == *$d2));
+                    }
+                }
+            }; }
+            for_archs!(typed_eq!(rep, d, d2));
         }
     }
     let distinct: HashSet<(u8, u32, u32)> = directs.iter().map(|d| crate::forge::direct_parts(*d)).collect();
